@@ -369,6 +369,139 @@ fn rename(text: &str, reserved: &BTreeSet<String>, tag: &str) -> Option<String> 
     if changed { Some(join(&toks)) } else { None }
 }
 
+/// The default-type class of every first letter (0 = SINGLE by default), from the DEFtype statements of the text.
+fn letter_classes(toks: &[vcore::btok::Tok]) -> [u8; 26] {
+    let mut cls = [0u8; 26];
+    let mut i = 0;
+    while i < toks.len() {
+        let u = toks[i].text.to_ascii_uppercase();
+        let k = match u.as_str() {
+            "DEFINT" => 1,
+            "DEFLNG" => 2,
+            "DEFSNG" => 0,
+            "DEFDBL" => 3,
+            "DEFSTR" => 4,
+            _ => {
+                i += 1;
+                continue;
+            }
+        };
+        // letter [- letter] {, letter [- letter]} up to the end of the statement
+        let mut j = i + 1;
+        let mut pending: Option<usize> = None;
+        let mut range_from: Option<usize> = None;
+        while j < toks.len() && toks[j].kind != TokKind::Eol && !(toks[j].kind == TokKind::Symbol && toks[j].text == ":") && toks[j].kind != TokKind::Comment {
+            let t = &toks[j];
+            if t.kind == TokKind::Word && t.text.len() == 1 && t.text.chars().all(|c| c.is_ascii_alphabetic()) {
+                let l = (t.text.to_ascii_uppercase().as_bytes()[0] - b'A') as usize;
+                if let Some(f) = range_from.take() {
+                    let (a, b) = if f <= l { (f, l) } else { (l, f) };
+                    for x in a..=b {
+                        cls[x] = k;
+                    }
+                    pending = None;
+                } else {
+                    if let Some(p) = pending {
+                        cls[p] = k;
+                    }
+                    pending = Some(l);
+                }
+            } else if t.kind == TokKind::Symbol && t.text == "-" {
+                range_from = pending.take();
+            }
+            j += 1;
+        }
+        if let Some(p) = pending {
+            cls[p] = k;
+        }
+        i = j;
+    }
+    cls
+}
+
+/// Replaces the first letter of every user-chosen word component by the next letter of the alphabet that has
+/// the same default type under the text's DEFtype statements (a permutation of the letters inside each class,
+/// so the renaming is consistent and injective; the rest of the word, its case and its suffix are kept).
+fn rename_first_letters(text: &str, reserved: &BTreeSet<String>) -> Option<String> {
+    let mut toks = tokenize(text);
+    let data = in_data_flags(&toks);
+    let cls = letter_classes(&toks);
+    let next_of = |l: usize| -> usize {
+        for d in 1..=26 {
+            let c = (l + d) % 26;
+            if cls[c] == cls[l] {
+                return c;
+            }
+        }
+        l
+    };
+    let mut changed = false;
+    let mut def_line = vec![false; toks.len()];
+    let mut first_word: Option<bool> = None;
+    for (i, t) in toks.iter().enumerate() {
+        match t.kind {
+            TokKind::Eol => first_word = None,
+            TokKind::Symbol if t.text == ":" => first_word = None,
+            TokKind::Word if first_word.is_none() => {
+                let u = t.text.to_ascii_uppercase();
+                first_word = Some(matches!(u.as_str(), "DEFINT" | "DEFLNG" | "DEFSNG" | "DEFDBL" | "DEFSTR"));
+            }
+            _ => {}
+        }
+        def_line[i] = first_word.unwrap_or(false);
+    }
+    for (i, t) in toks.iter_mut().enumerate() {
+        if t.kind != TokKind::Word || data[i] || def_line[i] {
+            continue;
+        }
+        let (base, suffix) = match t.text.chars().last() {
+            Some(c) if "%&!#$".contains(c) => (&t.text[..t.text.len() - 1], &t.text[t.text.len() - 1..]),
+            _ => (t.text.as_str(), ""),
+        };
+        let mut parts: Vec<String> = vec![];
+        for p in base.split('.') {
+            let first = p.chars().next();
+            if p.is_empty() || (p.len() >= 2 && reserved.contains(&p.to_ascii_uppercase())) || !first.map(|c| c.is_ascii_alphabetic()).unwrap_or(false) {
+                parts.push(p.to_string());
+                continue;
+            }
+            let c = first.unwrap();
+            let l = (c.to_ascii_uppercase() as u8 - b'A') as usize;
+            let n = (b'A' + next_of(l) as u8) as char;
+            let n = if c.is_ascii_lowercase() { n.to_ascii_lowercase() } else { n };
+            let new = format!("{}{}", n, &p[1..]);
+            if new.len() >= 2 && reserved.contains(&new.to_ascii_uppercase()) {
+                return None;
+            }
+            if new != p {
+                changed = true;
+            }
+            parts.push(new);
+        }
+        t.text = format!("{}{}", parts.join("."), suffix);
+    }
+    if changed { Some(join(&toks)) } else { None }
+}
+
+/// Programs whose verdict depends on the default type of a bare name: under every DEFtype kind and three ranges,
+/// a bare variable whose first letter is the first / a middle / the last letter of the range is passed by
+/// reference to a parameter of the range's type and used in an operation of that type.
+fn deftype_sensitive_programs() -> Vec<String> {
+    let mut out = vec![];
+    for (kw, sfx, val, op) in [("DEFINT", "%", "2", "K% = K% + 1"), ("DEFLNG", "&", "70000", "K& = K& + 1"), ("DEFDBL", "#", "2.5#", "K# = K# * 2"), ("DEFSTR", "$", "\"ab\"", "K$ = K$ + \"!\""), ("DEFSNG", "!", "1.5", "K! = K! * 2")] {
+        for (lo, hi) in [('A', 'Z'), ('M', 'P'), ('B', 'D')] {
+            let mid = ((lo as u8 + hi as u8) / 2) as char;
+            for first in [lo, mid, hi] {
+                let name = format!("{}alue", first.to_ascii_lowercase());
+                // DEFSNG on top of a DEFDBL A-Z so that the range matters
+                let head = if kw == "DEFSNG" { format!("DEFDBL A-Z\n{} {}-{}\n", kw, lo, hi) } else { format!("{} {}-{}\n", kw, lo, hi) };
+                out.push(format!("{}DECLARE SUB Bump (K{})\n{} = {}\nBump {}\nPRINT {}\nEND\nSUB Bump (K{})\n{}\nEND SUB\n", head, sfx, name, val, name, name, sfx, op));
+            }
+        }
+    }
+    out
+}
+
 fn verdict(o: &vcore::outcome::Outcome) -> String {
     match &o.end {
         End::RuntimeError { code, kind, .. } => format!("runtime:{:?}:{}", code, kind),
@@ -529,6 +662,23 @@ pub fn worker(case: &Value) -> Value {
                         }
                     }
                 }
+                // the first letters rotated inside their default-type class
+                if let Some(r) = rename_first_letters(text, &reserved) {
+                    n += 1;
+                    let o = run_pipeline(&r, &opts);
+                    if verdict(&o) != verdict(&base) || o.stdout != base.stdout {
+                        acc.bad(
+                            format!("C12|rename-first-letter|{}->{}", verdict(&base).split(':').next().unwrap_or(""), verdict(&o).split(':').next().unwrap_or("")),
+                            format!("replacing first letters by letters of the same default type changes the verdict: {} / {:?} -> {} / {:?}; original {:?}, renamed {:?}", verdict(&base), truncate_text(&base.stdout_str(), 60), verdict(&o), truncate_text(&o.stdout_str(), 60), truncate_text(text, 240), truncate_text(&r, 240)),
+                            r,
+                            replay.clone(),
+                        );
+                    } else {
+                        acc.hit("rename-first-letter:same");
+                    }
+                } else {
+                    acc.hit("rename-first-letter:not-applicable");
+                }
                 // single edits of accepted programs
                 if matches!(base.end, End::ParseError { .. } | End::LintError { .. } | End::Panic { .. }) {
                     acc.hit("base-not-accepted");
@@ -615,13 +765,14 @@ pub fn drive(tier: &str) -> i32 {
         progs.push(vcore::gprint::print_default(&vcore::gen01::control_program(f, false)).text);
     }
     groups.push(super::run_text_group(&mut run, &pool, "generated control programs: renaming, single edits", &progs, 20, &extra));
+    groups.push(super::run_text_group(&mut run, &pool, "programs whose verdict depends on the default type of a bare name (5 DEFtype kinds x 3 ranges x first / middle / last letter)", &deftype_sensitive_programs(), 5, &extra));
     let mut stmts: Vec<String> = vcore::slots::instantiate(if quick { 1 } else { 2 }).into_iter().map(|(_, s)| vcore::slots::program(&s)).collect();
     if quick {
         stmts = stmts.into_iter().step_by(2).collect();
     }
     groups.push(super::run_text_group(&mut run, &pool, "statement templates x operand menu: soundness, renaming", &stmts, 40, &extra));
     let mut ev = Evidence::new("exploration");
-    ev.set("rule", "typed: every operand, unary and binary expression (13 operators) over 10 (thorough 18) operands of all kinds (a whole record, literals, variables of every numeric type, strings, fixed-length strings as variable / array element / record member, array elements, user FUNCTION results, built-in results) in 23 syntactic positions (assignments, PRINT list, parentheses, IF / WHILE / DO conditions, SELECT subject, CASE lists, FOR start / limit / step, array subscripts and bounds, the subscript of an array-of-records element read and assigned through a field, by-value SUB arguments, FUNCTION arguments inside a subscript, built-in arguments): a kind model (numeric / string / ill-kinded) decides which programs must be rejected with a type error in the statement that holds the expression; accepted programs are executed and must not raise Type mismatch (13) nor panic. calls: 9 ill-formed calls of user-defined and built-in functions (argument count, argument type, by-reference type) bare, in parentheses, as an operand, inside a subscript and as an argument, in each of the 23 positions: rejected with the matching error at the statement's row. corpus: every harvested text, generated control program and statement template is run (soundness oracle outside READ / INPUT / PRINT USING statements), renamed consistently in two ways (every user-chosen word component gets a suffix; first letter and type suffix kept): same verdict and output; every accepted one is edited once at every applicable site (numeric literal next to * or / -> string literal, GOTO / GOSUB target -> missing label, NEXT counter -> another name, label line / DIM line duplicated, one more argument in a SUB call): rejected, and where the error is of the edit's family it is located at the edited row.");
+    ev.set("rule", "typed: every operand, unary and binary expression (13 operators) over 10 (thorough 18) operands of all kinds (a whole record, literals, variables of every numeric type, strings, fixed-length strings as variable / array element / record member, array elements, user FUNCTION results, built-in results) in 23 syntactic positions (assignments, PRINT list, parentheses, IF / WHILE / DO conditions, SELECT subject, CASE lists, FOR start / limit / step, array subscripts and bounds, the subscript of an array-of-records element read and assigned through a field, by-value SUB arguments, FUNCTION arguments inside a subscript, built-in arguments): a kind model (numeric / string / ill-kinded) decides which programs must be rejected with a type error in the statement that holds the expression; accepted programs are executed and must not raise Type mismatch (13) nor panic. calls: 9 ill-formed calls of user-defined and built-in functions (argument count, argument type, by-reference type) bare, in parentheses, as an operand, inside a subscript and as an argument, in each of the 23 positions: rejected with the matching error at the statement's row. corpus: every harvested text, generated control program and statement template is run (soundness oracle outside READ / INPUT / PRINT USING statements), renamed consistently in three ways (every user-chosen word component gets a suffix, first letter and type suffix kept — twice; every first letter replaced by the next letter that has the same default type under the program's DEFtype statements): same verdict and output; every accepted one is edited once at every applicable site (numeric literal next to * or / -> string literal, GOTO / GOSUB target -> missing label, NEXT counter -> another name, label line / DIM line duplicated, one more argument in a SUB call): rejected, and where the error is of the edit's family it is located at the edited row.");
     ev.set("exhaustive", !run.capped);
     ev.set("groups", json!(groups));
     ev.set("plan", json!({"typed_expressions": nexpr, "positions": CONTEXTS.len(), "ill_formed_calls": ctotal}));
